@@ -69,6 +69,8 @@ func replayCorpus(t *testing.T, run *emit.Run) {
 			runTwoChainHistory(t, run, true)
 		case "batch-released-key-before-next-snapshot":
 			scriptedReleasedKey(t, run)
+		case "batch-late-activation-of-older-compass":
+			scriptedLateActivation(t, run)
 		case "batch-more-than-100-confirms":
 			runBigSetHistory(t, run, true)
 		default:
@@ -504,5 +506,25 @@ func scriptedLateFees(t *testing.T, run *emit.Run) {
 	h.opEndBlock()
 	h.opEndBlock()
 	h.scriptSign(3, id, chain)
+	h.finish()
+}
+
+// scriptedLateActivation (seeded C06-S): compass 2 is active, a batch is open and confirmed; the activation of the older
+// compass deployment (contract id 1, another unique id) is processed late.  Nothing may move.
+func scriptedLateActivation(t *testing.T, run *emit.Run) {
+	h := newBHist(t, run)
+	h.opRedeploy(false)
+	if h.dead {
+		h.finish()
+		return
+	}
+	h.opBuild()
+	n := h.nonces[0]
+	h.confirmAs(0, n, true, true)
+	h.confirmAs(1, n, true, true)
+	h.opLateActivation(false)
+	if !h.dead {
+		h.confirmAs(2, n, true, true)
+	}
 	h.finish()
 }
